@@ -305,6 +305,17 @@ DupSeqB = _dup_named(USeq)           # a (read-only) Sequence called DupSeq
 DupSeqC = _dup_named(UColl)          # a mere Collection called DupSeq
 
 
+class FalsyDict(dict):
+    """A non-empty mapping that is falsy (truthiness must never stand in for emptiness)."""
+    def __bool__(self):
+        return False
+
+
+class FalsyList(list):
+    def __bool__(self):
+        return False
+
+
 class NeverEq:
     """An object that is not even equal to itself (like NaN, but of a user class)."""
     def __eq__(self, other):
@@ -377,7 +388,7 @@ FinI = typing.Final[int]
 
 # Names visible to eval() of rendered hint / object sources (replay scripts).
 NAMESPACE = {
-    'DupSeqA': DupSeqA, 'DupSeqB': DupSeqB, 'DupSeqC': DupSeqC, 'NEQ': NEQ, 'NAN': NAN, 'GReg': GReg, 'GOut': GOut, 'TD': TD, 'TDo': TDo, 'NT': NT, 'DC': DC, 'UCM': UCM, 'AL': AL, 'ALg': ALg, 'ALr': ALr, 'ALgi': ALgi, 'TupU': TupU, 'TupUU': TupUU,
+    'DupSeqA': DupSeqA, 'DupSeqB': DupSeqB, 'DupSeqC': DupSeqC, 'FalsyDict': FalsyDict, 'FalsyList': FalsyList, 'NEQ': NEQ, 'NAN': NAN, 'GReg': GReg, 'GOut': GOut, 'TD': TD, 'TDo': TDo, 'NT': NT, 'DC': DC, 'UCM': UCM, 'AL': AL, 'ALg': ALg, 'ALr': ALr, 'ALgi': ALgi, 'TupU': TupU, 'TupUU': TupUU,
     'PatS': PatS, 'MatS': MatS, 'GenI': GenI, 'CtxI': CtxI, 'PathS': PathS, 'InitI': InitI, 'FinI': FinI, 're': re, 'pathlib': pathlib,
     'K': K, 'K2': K2, 'Other': Other, 'E': E, 'IE': IE, 'NL': NL, 'NF': NF, 'TF': TF, 'TL': TL, 'TU': TU, 'N': N, 'T': T, 'TB': TB, 'TC': TC, 'P': P, 'PImpl': PImpl,
     'G': G, 'GL': GL, 'USeq': USeq, 'UMSeq': UMSeq, 'UMap': UMap, 'UMMap': UMMap, 'USet': USet,
